@@ -39,8 +39,10 @@ type models struct {
 	noPreempt   int
 	mapOrderAll bool
 	// memcall shadow page table
-	regions  []*memRegion
-	memLog   []string
+	guard       map[*Value]*regionInfo
+	regionList  []*regionInfo
+	modelAccess int
+	memLog      []string
 	// memguard buffers
 	// known classes registered on this path: label -> list
 	classes map[string][]knownClass
@@ -61,10 +63,10 @@ type sealEntry struct {
 }
 
 type memRegion struct {
-	data   []Value
-	mapped bool
-	locked bool
-	prot   int // 1 none, 2 ro, 6 rw  (awnumar flag values)
+	data       []Value
+	mapped     bool
+	locked     bool
+	prot       int // 1 none, 2 ro, 6 rw  (awnumar flag values)
 	everSecret bool
 }
 
@@ -176,28 +178,30 @@ func (in *Interp) clockNow() TimeV {
 	if m.clockFrozen && m.nowCount > 0 {
 		return TimeV{Sec: m.curSec, Nsec: m.curNsec}
 	}
-	sec := in.fresh("now_s", smt.BVSort(64))
-	nsec := in.fresh("now_n", smt.BVSort(64))
-	in.input(sec)
-	in.input(nsec)
+	secV := in.fresh("now_s", smt.IntSort)
+	nsecV := in.fresh("now_n", smt.IntSort)
+	in.input(secV)
+	in.input(nsecV)
 	tb := in.tb
 	// 2^20 <= sec < 2^36 ; 0 <= nsec < 1e9
-	in.assume(tb.BVCmp("bvult", sec, tb.BV(64, 1<<36)))
-	in.assume(tb.BVCmp("bvuge", sec, tb.BV(64, 1<<20)))
-	in.assume(tb.BVCmp("bvult", nsec, tb.BV(64, nsPerSec)))
+	in.assume(tb.IntCmp("<", secV, tb.IntLit(1<<36)))
+	in.assume(tb.IntCmp(">=", secV, tb.IntLit(1<<20)))
+	in.assume(tb.IntCmp("<", nsecV, tb.IntLit(nsPerSec)))
+	in.assume(tb.IntCmp(">=", nsecV, tb.IntLit(0)))
+	sec, nsec := in.mkInt(secV, 37), in.mkInt(nsecV, 31)
 	if m.nowCount > 0 {
-		ps, pn := in.bvTerm(m.curSec), in.bvTerm(m.curNsec)
-		in.assume(tb.Or(tb.BVCmp("bvugt", sec, ps), tb.And(tb.Eq(sec, ps), tb.BVCmp("bvuge", nsec, pn))))
+		prev := TimeV{Sec: m.curSec, Nsec: m.curNsec}
+		in.assume(in.boolTerm(in.notB(in.timeLess(TimeV{Sec: sec, Nsec: nsec}, prev))))
 	}
 	if m.clockMin != nil {
-		in.assume(tb.BVCmp("bvuge", sec, in.bvTerm(*m.clockMin)))
+		in.assume(in.boolTerm(in.bvBinop(token.GEQ, true, sec, *m.clockMin, nil).(Bool)))
 	}
 	if m.clockMax != nil {
-		in.assume(tb.BVCmp("bvule", sec, in.bvTerm(*m.clockMax)))
+		in.assume(in.boolTerm(in.bvBinop(token.LEQ, true, sec, *m.clockMax, nil).(Bool)))
 	}
 	m.nowCount++
-	m.curSec, m.curNsec = in.mkBVT(sec), in.mkBVT(nsec)
-	return TimeV{Sec: m.curSec, Nsec: m.curNsec}
+	m.curSec, m.curNsec = sec, nsec
+	return TimeV{Sec: sec, Nsec: nsec}
 }
 
 func (in *Interp) timeAdd(t TimeV, d BV) TimeV {
@@ -213,16 +217,40 @@ func (in *Interp) timeAdd(t TimeV, d BV) TimeV {
 		ds--
 		dr += nsPerSec
 	}
-	tb := in.tb
-	sec := tb.BVBin("bvadd", in.bvTerm(t.Sec), tb.BV(64, uint64(ds)))
-	nsec := in.bvTerm(t.Nsec)
+	sec := in.bvBinop(token.ADD, true, t.Sec, mkBV(64, uint64(ds)), nil).(BV)
+	nsec := t.Nsec
 	if dr != 0 {
-		sum := tb.BVBin("bvadd", nsec, tb.BV(64, uint64(dr)))
-		carry := tb.BVCmp("bvuge", sum, tb.BV(64, nsPerSec))
-		nsec = tb.Ite(carry, tb.BVBin("bvsub", sum, tb.BV(64, nsPerSec)), sum)
-		sec = tb.Ite(carry, tb.BVBin("bvadd", sec, tb.BV(64, 1)), sec)
+		sum := in.bvBinop(token.ADD, true, nsec, mkBV(64, uint64(dr)), nil).(BV)
+		carry := in.bvBinop(token.GEQ, true, sum, mkBV(64, nsPerSec), nil).(Bool)
+		if carry.T == nil {
+			if carry.C {
+				nsec = in.bvBinop(token.SUB, true, sum, mkBV(64, nsPerSec), nil).(BV)
+				sec = in.bvBinop(token.ADD, true, sec, mkBV(64, 1), nil).(BV)
+			} else {
+				nsec = sum
+			}
+		} else {
+			nsec = in.iteBV(carry, in.bvBinop(token.SUB, true, sum, mkBV(64, nsPerSec), nil).(BV), sum)
+			sec = in.iteBV(carry, in.bvBinop(token.ADD, true, sec, mkBV(64, 1), nil).(BV), sec)
+		}
 	}
-	return TimeV{Sec: in.mkBVT(sec), Nsec: in.mkBVT(nsec)}
+	return TimeV{Sec: sec, Nsec: nsec}
+}
+
+// iteBV keeps integer twins through an if-then-else when both arms have one.
+func (in *Interp) iteBV(c Bool, a, b BV) BV {
+	if c.T == nil {
+		if c.C {
+			return a
+		}
+		return b
+	}
+	ai, ab, ok1 := in.intTwin(a)
+	bi, bb, ok2 := in.intTwin(b)
+	if ok1 && ok2 {
+		return in.mkInt(in.tb.Ite(c.T, ai, bi), max(ab, bb))
+	}
+	return in.mkBVT(in.tb.Ite(c.T, in.bvTerm(a), in.bvTerm(b)))
 }
 
 // timeLess returns a < b (lexicographic, signed seconds).
@@ -233,9 +261,10 @@ func (in *Interp) timeLess(a, b TimeV) Bool {
 		}
 		return Bool{C: a.Zero} // the zero time precedes every modelled instant
 	}
-	tb := in.tb
-	as, an, bs, bn := in.bvTerm(a.Sec), in.bvTerm(a.Nsec), in.bvTerm(b.Sec), in.bvTerm(b.Nsec)
-	return in.mkBoolT(tb.Or(tb.BVCmp("bvslt", as, bs), tb.And(tb.Eq(as, bs), tb.BVCmp("bvult", an, bn))))
+	lt := in.bvBinop(token.LSS, true, a.Sec, b.Sec, nil).(Bool)
+	eq := in.eqBV(a.Sec, b.Sec)
+	nlt := in.bvBinop(token.LSS, true, a.Nsec, b.Nsec, nil).(Bool)
+	return in.orB(lt, in.andB(eq, nlt))
 }
 
 func (in *Interp) timeTruncate(t TimeV, d BV) TimeV {
@@ -250,19 +279,28 @@ func (in *Interp) timeTruncate(t TimeV, d BV) TimeV {
 		return t
 	}
 	tb := in.tb
+	// rem computes v - (v mod m) for a non-negative twinned word v
+	floorTo := func(v BV, m int64, bits int) BV {
+		if v.T == nil {
+			s := v.Signed()
+			return mkBV(64, uint64(s-((s%m)+m)%m))
+		}
+		vi, _, ok := in.intTwin(v)
+		if !ok {
+			panic(inconclusive{"Truncate of a time value without an integer twin"})
+		}
+		q := in.fresh("trq", smt.IntSort)
+		r := in.fresh("trr", smt.IntSort)
+		in.assume(tb.IntCmp(">=", r, tb.IntLit(0)))
+		in.assume(tb.IntCmp("<", r, tb.IntLit(m)))
+		in.assume(tb.Eq(vi, tb.IntBin("+", tb.IntBin("*", tb.IntLit(m), q), r)))
+		return in.mkInt(tb.IntBin("-", vi, r), bits)
+	}
 	if dn%nsPerSec != 0 {
 		if nsPerSec%dn != 0 {
 			panic(inconclusive{fmt.Sprintf("Truncate(%dns): granularity neither whole seconds nor a divisor of 1s", dn)})
 		}
-		if t.Nsec.T == nil {
-			return TimeV{Sec: t.Sec, Nsec: mkBV(64, t.Nsec.C-t.Nsec.C%uint64(dn))}
-		}
-		q := in.fresh("trq", smt.BVSort(64))
-		r := in.fresh("trr", smt.BVSort(64))
-		in.assume(tb.BVCmp("bvult", r, tb.BV(64, uint64(dn))))
-		in.assume(tb.BVCmp("bvule", q, tb.BV(64, uint64(nsPerSec/dn))))
-		in.assume(tb.Eq(in.bvTerm(t.Nsec), tb.BVBin("bvadd", tb.BVBin("bvmul", q, tb.BV(64, uint64(dn))), r)))
-		return TimeV{Sec: t.Sec, Nsec: in.mkBVT(tb.BVBin("bvsub", in.bvTerm(t.Nsec), r))}
+		return TimeV{Sec: t.Sec, Nsec: floorTo(t.Nsec, dn, 31)}
 	}
 	m := dn / nsPerSec
 	if 86400%m != 0 {
@@ -271,17 +309,7 @@ func (in *Interp) timeTruncate(t TimeV, d BV) TimeV {
 	if m == 1 {
 		return TimeV{Sec: t.Sec, Nsec: mkBV(64, 0)}
 	}
-	if t.Sec.T == nil {
-		s := t.Sec.Signed()
-		return TimeV{Sec: mkBV(64, uint64(s-((s%m)+m)%m)), Nsec: mkBV(64, 0)}
-	}
-	// sec = q*m + r, 0 <= r < m, q < 2^36  (sec is known to lie in [0,2^37))
-	q := in.fresh("trq", smt.BVSort(64))
-	r := in.fresh("trr", smt.BVSort(64))
-	in.assume(tb.BVCmp("bvult", r, tb.BV(64, uint64(m))))
-	in.assume(tb.BVCmp("bvult", q, tb.BV(64, 1<<37)))
-	in.assume(tb.Eq(in.bvTerm(t.Sec), tb.BVBin("bvadd", tb.BVBin("bvmul", q, tb.BV(64, uint64(m))), r)))
-	return TimeV{Sec: in.mkBVT(tb.BVBin("bvsub", in.bvTerm(t.Sec), r)), Nsec: mkBV(64, 0)}
+	return TimeV{Sec: floorTo(t.Sec, m, 38), Nsec: mkBV(64, 0)}
 }
 
 // ---- randomness ----
@@ -354,6 +382,9 @@ func init() {
 	// crypto/aes + cipher: ideal AEAD
 	reg("crypto/aes.NewCipher", func(in *Interp, fr *frame, a []Value) Value {
 		key := bytesOf(a[0])
+		if len(key) > 0 {
+			in.memAccess(&key[0], false)
+		}
 		switch len(key) {
 		case 16, 24, 32:
 		default:
@@ -412,6 +443,7 @@ func init() {
 	reg("(*github.com/rcrowley/go-metrics.StandardRegistry).UnregisterAll", func(in *Interp, fr *frame, a []Value) Value { return nil })
 
 	// runtime
+	reg("regexp.MustCompile", func(in *Interp, fr *frame, a []Value) Value { return &Obj{Kind: "opaque"} })
 	reg("(runtime.errorString).Error", func(in *Interp, fr *frame, a []Value) Value { return a[0] })
 	reg("runtime.SetFinalizer", func(in *Interp, fr *frame, a []Value) Value { return nil })
 	reg("runtime.KeepAlive", func(in *Interp, fr *frame, a []Value) Value { return nil })
@@ -430,14 +462,14 @@ func init() {
 		if base.T != nil || base.C != 10 {
 			panic(inconclusive{"FormatInt of a symbolic value in a base other than 10"})
 		}
-		return Str{Segs: []Seg{{Itoa: v.T}}}
+		return Str{Segs: []Seg{{Itoa: v.T, ItoaV: v}}}
 	})
 	reg("strconv.Itoa", func(in *Interp, fr *frame, a []Value) Value {
 		v := a[0].(BV)
 		if v.T == nil {
 			return Str{S: strconv.FormatInt(v.Signed(), 10)}
 		}
-		return Str{Segs: []Seg{{Itoa: v.T}}}
+		return Str{Segs: []Seg{{Itoa: v.T, ItoaV: v}}}
 	})
 	reg("strings.Index", func(in *Interp, fr *frame, a []Value) Value {
 		s, sub := a[0].(Str), a[1].(Str)
@@ -484,7 +516,9 @@ func init() {
 	reg("sort.SliceStable", sortSlice)
 
 	// errors
-	reg("errors.Is", func(in *Interp, fr *frame, a []Value) Value { return Bool{C: in.errorsIs(fr, a[0].(Iface), a[1].(Iface))} })
+	reg("errors.Is", func(in *Interp, fr *frame, a []Value) Value {
+		return Bool{C: in.errorsIs(fr, a[0].(Iface), a[1].(Iface))}
+	})
 	reg("errors.Unwrap", func(in *Interp, fr *frame, a []Value) Value { return in.errUnwrap(fr, a[0].(Iface)) })
 	reg("errors.As", func(in *Interp, fr *frame, a []Value) Value {
 		err := a[0].(Iface)
@@ -574,13 +608,9 @@ func aeadSeal(in *Interp, fr *frame, o *Obj, a []Value) Value {
 	for i := 0; i < 16; i++ {
 		e.tag = append(e.tag, BV{W: 8, T: in.tb.Var(fmt.Sprintf("tag_%d_%d", id, i), smt.BVSort(8))})
 	}
-	// injectivity: same (key, nonce, aad, ct, tag) implies same plaintext
+	// ideal-AEAD axiom: tags of distinct Seal calls are pairwise distinct
 	for _, p := range in.m.seals {
-		if len(p.pt) != len(e.pt) || len(p.key) != len(e.key) || len(p.aad) != len(e.aad) {
-			continue
-		}
-		same := in.tb.And(in.eqBytes(p.key, e.key), in.eqBytes(p.nonce, e.nonce), in.eqBytes(p.aad, e.aad), in.eqBytes(p.ct, e.ct), in.eqBytes(p.tag, e.tag))
-		in.assume(in.tb.Implies(same, in.eqBytes(p.pt, e.pt)))
+		in.assume(in.tb.Not(in.eqBytes(p.tag, e.tag)))
 	}
 	in.m.seals = append(in.m.seals, e)
 	out := make([]Value, 0, len(e.ct)+16)
@@ -622,9 +652,27 @@ func aeadOpen(in *Interp, fr *frame, o *Obj, a []Value) Value {
 	body, tag := ct[:len(ct)-16], ct[len(ct)-16:]
 	var cands []*sealEntry
 	var conds []*smt.Term
+	// which seal (if any) does the presented tag come from, syntactically?
+	from := -1
+	for _, e := range in.m.seals {
+		same := true
+		for i := range tag {
+			if tag[i].T == nil || tag[i].T != e.tag[i].T {
+				same = false
+				break
+			}
+		}
+		if same {
+			from = e.id
+			break
+		}
+	}
 	for _, e := range in.m.seals {
 		if len(e.pt) != len(body) {
 			continue
+		}
+		if from >= 0 && from != e.id {
+			continue // distinct-tags axiom: the tag of seal `from` cannot equal the tag of seal e
 		}
 		c := in.tb.And(in.eqBytes(e.key, key), in.eqBytes(e.nonce, nonce), in.eqBytes(e.aad, aad), in.eqBytes(e.ct, body), in.eqBytes(e.tag, tag))
 		if c == in.tb.False {
@@ -705,9 +753,10 @@ func (in *Interp) formatArg(fr *frame, verb byte, v Value) Str {
 			return Str{S: strconv.FormatInt(v.Signed(), 10)}
 		}
 		if v.W == 64 {
-			return Str{Segs: []Seg{{Itoa: v.T}}}
+			return Str{Segs: []Seg{{Itoa: v.T, ItoaV: v}}}
 		}
-		return Str{Segs: []Seg{{Itoa: in.tb.SExt(64, v.T)}}}
+		e := in.tb.SExt(64, v.T)
+		return Str{Segs: []Seg{{Itoa: e, ItoaV: BV{W: 64, T: e}}}}
 	case Bool:
 		if v.T == nil {
 			return Str{S: strconv.FormatBool(v.C)}
